@@ -8,7 +8,9 @@ CHECKS = {
           "rotation of the tonality scale (closed form with floor division), scale/chromatic/absolute/accidental note pitches equal "
           "the documented closed forms, chord/bass notes walk the stacked-thirds / inverted arpeggio for the 11 bare figures, each "
           "octave is exactly 12, middle C is 0; the generated SCALES table equals the rotations of the major scale (finite sweep in "
-          "the kernel). Model tied to Chord.to_pitch and the three pitch lists by differential execution.",
+          "the kernel). Model tied to Chord.to_pitch and the three pitch lists by differential execution; oracle streams ask one Chord object for "
+          "several notes in a row, build several chords from one shared Tonality object with %, and spell keys with the library's .b / .s symbols "
+          "across the octave (C flat, B sharp).",
   "note": "Trusted: Coq kernel + vm_compute; gen_tables.py; harness adapters; regex parse of extension strings is glue. "
           "Accidental cells are pinned as a golden table. Chord/bass-note theorem is for bare figures; modifier sets are tied by correspondence (C02 proves their laws).",
  },
@@ -64,8 +66,9 @@ CHECKS = {
           "(triads/sevenths without modifiers, every degree, mode, tonic, octave, previous bass in Z): same degree/tonality/family, same chord "
           "tones whole octaves apart, bass moves by at most 3 semitones (0..5 in the requested direction), first chord and parts kept, "
           "chained along the progression. Counterpoint: durations, dynamics, rests and ties kept, notes become scale notes at most 4 steps "
-          "away. Two defects repaired (absolute notes of fixed voices shifted; method='random' ignored fixed voices).",
-  "note": "Partial: reproducibility for a seed and the counterpoint on whole scores (projection onto one chord and back) are decided by the "
+          "away. Three defects repaired (absolute notes of fixed voices shifted; method='random' ignored fixed voices; parts entering after the "
+          "first chord were added in set order, so a seeded run was not reproducible from one interpreter to the next).",
+  "note": "Partial: reproducibility for a seed (same process, same optimiser object, and two fresh processes with different PYTHONHASHSEED) and the counterpoint on whole scores (projection onto one chord and back) are decided by the "
           "oracle on the implementation, not by a theorem; with change_octave_fixed=True (the default) fixed voices move by whole octaves "
           "with their chord, which the statement's 'up to the octave normalisation' is read to allow. Trusted: Coq kernel; gen_tables; "
           "numpy RandomState; project_on_rhythm (subject columns read from the implementation); adapters. Not explored: single-chord scores "
@@ -82,7 +85,8 @@ CHECKS = {
           "alone and a rest has octave 0 and no mode) and refuted by witnesses. The copy model is tied field by field to x.copy() on notes "
           "reached through chained library operations (suffix chains, octave moves, dynamics, tags, modes). On the implementation "
           "the oracle checks, on triples differing in single fields, the relation laws, copy/deepcopy equality, hash equality of equal objects, "
-          "set/dict interchangeability and NoteIn/ChordIn/TonalityIn masks. Three hash defects and three copy defects (rests lost their octave / mode, "
+          "set/dict interchangeability, NoteIn/ChordIn/TonalityIn masks, chords with an empty part, and hashes taken before an in-place edit "
+          "(chord.score[part] = melody). Three hash defects and three copy defects (rests lost their octave / mode, "
           "copies rounded durations finer than 1/1000) were repaired in /repo.",
   "note": "Trusted: Coq kernel; Python hashes equal tuples/strings/frozensets equally; adapters. Score is unhashable (no hash clause). "
           "Float dynamics thresholds are modelled in exact rationals and verified exhaustively over amplitudes 0..127 and the 9 constants.",
@@ -142,11 +146,15 @@ CHECKS = {
           "positions and takes them in order cyclically (entry j carries note j mod m); the Bjorklund construction yields, for ALL "
           "1 <= pulses <= steps, exactly `steps` binary entries with exactly `pulses` ones and a pulse on the downbeat (invariant through the "
           "Euclid recursion, termination proved); maximal evenness (Clough-Douthett) for all steps <= 64 by a kernel sweep - bounded, stated so; "
-          "complement, reversal and circular shift by n then -n are identities for all arrays and all n in Z. FromMelody round trip and the "
-          "signature/tatum arithmetic are evaluated on the implementation by the oracle.",
+          "complement, reversal and circular shift by n then -n are identities for all arrays and all n in Z. expand=False (the melody is not "
+          "repeated, missing notes are rests): on a binary grid the loop never stops early, the result lasts the grid, and an entry that carries a "
+          "note carries the melody's note j mod m' - never a padding rest (model tied to apply_to_melody(expand=False)). FromMelody round trip "
+          "(pitched, drum and pattern melodies), the signature/tatum arithmetic, the instance method Metric.euclidian and the ScoreRhythm helper "
+          "(one grid per part over a whole score: note onsets = the pulses of the cyclically repeated grid) are evaluated on the implementation by the oracle.",
   "note": "Trusted: Coq kernel + vm_compute; adapters (tatum units). Evenness beyond 64 steps is only tested (thorough tier: 128). "
           "For apply_to_melody with start/end windows the model receives the cyclically repeated grid computed by the oracle (the window "
-          "arithmetic itself is oracle-checked: duration and pulse positions); expand=False is not modelled.",
+          "arithmetic itself is oracle-checked: duration and pulse positions). Grids with rest markers (entries other than 0/1) are outside the statement "
+          "(with expand=False they stop early).",
  },
  "C18": {
   "text": "Theorems for EVERY mask built with & | ~ > (any nesting, any atoms): what the dispatch asks at chord, melody and note level "
@@ -155,7 +163,9 @@ CHECKS = {
           "the transformer changes exactly what the mask selects; ~ negates a guard on its level; without a mask every element is mapped. "
           "The dispatch model (beats threaded per melody and per score, plain and filter variants, note/melody/chord transformers) is tied "
           "to the implementation by tracing transformers on random scores x random masks; pipelines (= composition / append with step tags) "
-          "and the rhythm clause for 7 library transforms are evaluated on the implementation by the oracle. Five library-transform defects repaired.",
+          "the rhythm clause for 7 library transforms, chord transformers whose action returns several chords (one flat score) and user-defined "
+          "NoteFilter / MelodyFilter predicates are evaluated on the implementation by the oracle. Five library-transform defects and the filter "
+          "predicate defect (the predicate received the whole container) repaired.",
   "note": "Trusted: Coq kernel; adapters; Python set membership. Disjunctions across levels follow the gated reading (DESIGN observation), "
           "the oracle judges separable masks only. Func masks, DictTransformer and ScoreTransformer are not modelled. Observation: a filter "
           "transformer that drops every chord raises AttributeError in apply_on_score (None.add_tags).",
